@@ -9,7 +9,7 @@ VARIABLES kind, bs, pos, acc, done, val
 vars == <<kind, bs, pos, acc, done, val>>
 
 Last(k, len) == IF len < 5 THEN {b \in ByteEdge : b < 128}
-                ELSE IF k = "u" THEN 0..15 ELSE (0..7) \cup (120..127)
+                ELSE IF k = "u" THEN 0..15 ELSE (0..15) \cup (120..127)
 Inputs(k) == {<<b>> : b \in {x \in ByteAll : x < 128}}
              \cup {<<a, b>> : a \in {x \in ByteAll : x >= 128}, b \in {x \in ByteAll : x < 128}}
              \cup UNION {{c \o <<z>> : c \in [1..(n-1) -> {x \in ByteEdge : x >= 128}], z \in Last(k, n)} : n \in 3..5}
